@@ -93,3 +93,5 @@ def load_relational(inst):
             M.Comment.objects.filter(id=r["id"]).update(parent_id=r["parent_id"])
     Through = M.Post.tags.through
     Through.objects.bulk_create([Through(post_id=p, tag_id=t) for p, t in inst["post_tags"]])
+    Through2 = M.Post.labels.through
+    Through2.objects.bulk_create([Through2(post_id=p, tag_id=t) for p, t in inst.get("post_labels", [])])
